@@ -4,6 +4,7 @@ import (
 	"fmt"
 	"go/token"
 	"go/types"
+	"sort"
 	"strings"
 
 	"golang.org/x/tools/go/ssa"
@@ -14,7 +15,7 @@ func init() {
 		ID: "C12",
 		Explanation: "Shape rules on SplitRawStatements over its SSA: R1 every NextToken() result is tested and returned as the error; R2 delegation: the input string is used only as the lexer's buffer and as the operand of slice expressions whose bounds are token positions, and branch conditions depend only on Token.Kind against ';' / <eof>, on the error, on positions and on the result length — what counts as a literal or a comment is the lexer's knowledge alone; R3 in every RawStatement literal Statement is input[a:b] with the very values stored in Pos and End; pieces end at the position of the ';' (or <eof>) token; R4 the start of a piece after a ';' accounts for the comments attached to the next token (Token.Pos lies after them), or is the end of the ';' token; the loop is driven through TKAI: it leaves only at <eof> (C03/R4 gives termination). " +
 			"Does not decide: ordering / non-overlap arithmetic.",
-		Rules: []ruleFn{ruleC12, ruleC14R7, ruleC14R8, ruleC12R5, ruleC05R6},
+		Rules: []ruleFn{ruleC12, ruleC14R7, ruleC14R8, ruleC12R5, ruleC05R6, ruleC12R6},
 	})
 }
 
@@ -391,4 +392,66 @@ func (w *World) controlDependsOnComments(v ssa.Value) bool {
 		}
 	}
 	return false
+}
+
+
+// ruleC12R6: SplitRawStatements and the parser run the same lexer. Every Lexer the module constructs is configured the
+// same way: the composite literals of memefish.Lexer set the same fields (today: File only). A mode switch that only the
+// splitter turns on ("lenient literals") makes the two disagree about where a token ends — the splitter then cuts
+// inside a literal the parser reads as one token.
+func ruleC12R6(w *World, r *Report) {
+	const rule = "C12/R6"
+	r.rule(rule, "every construction of memefish.Lexer in the module sets the same fields (no lexer mode that SplitRawStatements switches on and the parser does not, or the reverse)", 2)
+	type site struct {
+		fn     *ssa.Function
+		pos    token.Pos
+		fields []string
+	}
+	var sites []site
+	for _, fn := range w.ModFns {
+		if fnPkgPath(fn) != modRoot {
+			continue
+		}
+		for _, b := range fn.Blocks {
+			for _, in := range b.Instrs {
+				al, ok := in.(*ssa.Alloc)
+				if !ok || !isNamed(al.Type(), modRoot, "Lexer") {
+					continue
+				}
+				if fn.Signature.Recv() != nil && w.isLexerPtr(fn.Signature.Recv().Type()) && fn.Name() == "Clone" {
+					continue // the copy constructor copies everything
+				}
+				var fs []string
+				for f := range allocFieldStores(al) {
+					fs = append(fs, f)
+				}
+				sort.Strings(fs)
+				sites = append(sites, site{fn, al.Pos(), fs})
+			}
+		}
+	}
+	if len(sites) < 2 {
+		r.errorf("expected the Lexer literals of newParser and SplitRawStatements, found %d", len(sites))
+		return
+	}
+	// the reference configuration: the one the string-taking parser entry points use
+	var ref []string
+	for _, s := range sites {
+		if s.fn.Name() == "newParser" {
+			ref = s.fields
+		}
+	}
+	if ref == nil {
+		ref = sites[0].fields
+	}
+	cnt := map[string]int{}
+	for _, s := range sites {
+		cnt[funcName(s.fn)]++
+		construct := fmt.Sprintf("Lexer literal %d in %s", cnt[funcName(s.fn)], funcName(s.fn))
+		if strings.Join(s.fields, ",") == strings.Join(ref, ",") {
+			r.ok(rule, construct, w.pos(s.pos), "sets "+strings.Join(s.fields, ", ")+" like every other construction")
+		} else {
+			r.bad(rule, construct, w.pos(s.pos), fmt.Sprintf("sets [%s], the parser's lexer is built with [%s]: the two lexers are configured differently and need not agree on token boundaries", strings.Join(s.fields, ", "), strings.Join(ref, ", ")))
+		}
+	}
 }
